@@ -735,6 +735,21 @@ func staleDefaultTime(x *mon.Ctx) {
 		x.Broken("stale-default-time: in-date quote rejected with default times: " + err1.Error())
 		return
 	}
+	// a fraction of a second after the expiry (certificate times are whole seconds, the clock is not): "now" is the reading of
+	// the clock, not that reading brought down to the granularity of the artefact
+	for _, frac := range []time.Duration{60 * time.Millisecond, 450 * time.Millisecond, 900 * time.Millisecond} {
+		time.Sleep(time.Until(exp.Add(frac)))
+		wb := time.Now().Round(0)
+		errJust := verify.RawTdxQuote(raw, mk())
+		wa := time.Now().Round(0)
+		switch {
+		case !wb.After(exp) || wa.Before(wb):
+			x.Inconclusive("stale-default-time: the wall clock was stepped around the sub-second probe")
+		case errJust == nil:
+			x.Violation("stale-default-time", "fraction-of-a-second-after-expiry", fmt.Sprintf("Options.Now left nil: the PCK leaf expired at %v; a call begun at %v (wall clock, %v after the expiry) and finished at %v accepts the quote", exp.Format(time.RFC3339), wb.Format(time.RFC3339Nano), wb.Sub(exp), wa.Format(time.RFC3339Nano)), "none", map[string]any{"leaf_not_after": exp, "call_begun": wb, "call_finished": wa})
+		}
+		x.Note("stale-default-time", fmt.Sprintf("fraction-of-a-second-after-expiry/%v", frac), errJust == nil, false, wb.After(exp))
+	}
 	time.Sleep(time.Until(exp.Add(2 * time.Second)))
 	errShared := verify.RawTdxQuote(raw, shared)
 	errAfterFailure := verify.RawTdxQuote(raw, sharedAfterFailure)
